@@ -64,6 +64,14 @@ type acpiCfgT struct {
 	PureFns      map[string]string      `json:"purefns"`      // pkg.F -> "CoqFunction:width": a pure function of another package given by a Coq function
 	Printf       map[string]string      `json:"printf"`       // callee text (kfmt.Fprintf) -> event name
 	OpaqueParams []string               `json:"opaqueparams"` // parameter types that are dropped (io.Writer)
+	Ctor         map[string]acpiCtorCfg `json:"ctor"`         // function -> its interface-typed result is nil or &Struct{fields}: rewritten to (bool, fields..)
+	MethodSeams  map[string]string      `json:"methodseams"`  // method of the receiver that is not translated -> event name
+}
+
+type acpiCtorCfg struct {
+	Struct string   `json:"struct"`
+	Fields []string `json:"fields"` // field names, in the order of the results
+	Types  []string `json:"types"`  // their Go types ("uintptr", "bool")
 }
 
 var acpiWrap struct {
@@ -264,6 +272,27 @@ func (tr *translator) acpiWorldCallee(c *ast.CallExpr, en *env) (fnSpec, bool) {
 	return sp, true
 }
 
+// acpiMethodCallee: c is drv.M(args) for the receiver drv and a translated world method M of its struct
+func (tr *translator) acpiMethodCallee(c *ast.CallExpr, en *env) (fnSpec, bool) {
+	sel, ok := c.Fun.(*ast.SelectorExpr)
+	if !ok || tr.mon != "world" {
+		return fnSpec{}, false
+	}
+	id, ok := sel.X.(*ast.Ident)
+	if !ok {
+		return fnSpec{}, false
+	}
+	st, ok := acpiRecvInfo(en.vars[id.Name])
+	if !ok {
+		return fnSpec{}, false
+	}
+	sp, ok := tr.funcs[st+"."+sel.Sel.Name]
+	if !ok || !sp.World || sp.Recv != st {
+		return fnSpec{}, false
+	}
+	return sp, true
+}
+
 // acpiHoistCall hoists the call and returns the variables bound to its results
 func (tr *translator) acpiHoistCall(c *ast.CallExpr, spec fnSpec, en *env, mk func() string) ([]string, []tinfo) {
 	if tr.noHoist > 0 {
@@ -278,7 +307,22 @@ func (tr *translator) acpiHoistCall(c *ast.CallExpr, spec fnSpec, en *env, mk fu
 		fail("%s: call of %s, which stores into a parameter", tr.fn.Name, spec.Name)
 	}
 	args := []string{v(tr.ptrRecv)}
+	if sel, isSel := c.Fun.(*ast.SelectorExpr); isSel && spec.Recv != "" {
+		// a method of the receiver: its read-only fields are the callee's leading parameters
+		id := sel.X.(*ast.Ident)
+		var fs []string
+		for f := range acpiC.Recv[spec.Recv] {
+			fs = append(fs, f)
+		}
+		sort.Strings(fs)
+		for _, f := range fs {
+			args = append(args, v(id.Name+"_"+f))
+		}
+	}
 	for _, a := range c.Args {
+		if id, isId := a.(*ast.Ident); isId && en.vars[id.Name].width == -31 {
+			continue // an opaque parameter handed on
+		}
 		as, at := tr.expr(a, en)
 		if at.width < 0 && at.width != -1 && at.width != -2 {
 			fail("%s: unsupported argument in the call of %s", tr.fn.Name, spec.Name)
@@ -442,7 +486,11 @@ func (tr *translator) acpiExpr(e ast.Expr, en *env) (string, tinfo, bool) {
 		if s, ti, ok := tr.acpiMake(t, en); ok { // target 2
 			return s, ti, true
 		}
-		if spec, ok := tr.acpiWorldCallee(t, en); ok {
+		spec, ok := tr.acpiWorldCallee(t, en)
+		if !ok {
+			spec, ok = tr.acpiMethodCallee(t, en)
+		}
+		if ok {
 			pats, rts := tr.acpiHoistCall(t, spec, en, tr.tmp)
 			tr.hoistedCall = true
 			switch len(pats) {
@@ -557,6 +605,7 @@ func acpiPreprocess(fset *token.FileSet, files map[string]*ast.File, funcs map[s
 			out = append(out, spec)
 			continue
 		}
+		acpiCtor(spec, decl)
 		decl.Body.List = acpiLabels(spec.Name, decl.Body.List)
 		extra := acpiDefer(spec, decl, file)
 		for _, x := range extra {
@@ -850,7 +899,11 @@ func acpiDefer(spec fnSpec, decl *ast.FuncDecl, file *ast.File) []fnSpec {
 //   "purefns": {"vmm.PageOffset": "acpi_vmm_PageOffset:64"}   a pure function of another package given by a Coq function;
 //   locals of type []uintptr: `var x []uintptr` (nil), `x = make([]uintptr, n)` (gmake: n zeros), x[i] = e, len(x), range x
 //        through main.go's machinery for local byte slices with element width 64;
-//   `var ( a = e1; b = e2; c T )` with loads in the initial values: split into `a := e1; b := e2; var c T`.
+//   `var ( a = e1; b = e2; c T )` with loads in the initial values: split into `a := e1; b := e2; var c T`;
+//   drv.M(args) for another translated world method M of the receiver: as a call of a world function, the receiver's read-only
+//        fields handed on; "methodseams": {"printTableInfo": "printTableInfo"}: a method that is NOT translated is an event;
+//   "ctor" (see acpiCtor at the end): `return nil` / `return &acpiDriver{rsdtAddr: a, useXSDT: b}` of a function with an
+//        interface-typed result become `return false, 0, false` / `return true, a, b` (syntax-tree rewrite).
 
 type acpiRecvCfg map[string]string
 
@@ -1038,7 +1091,34 @@ func (tr *translator) acpiMapStore(s *ast.AssignStmt, en *env, rest func(en *env
 // kfmt.Fprintf(w, "format", args..)
 func (tr *translator) acpiExprStmt(s *ast.ExprStmt, en *env, rest func(en *env) string) (string, bool) {
 	c, ok := s.X.(*ast.CallExpr)
-	if !ok || acpiC.Printf == nil {
+	if !ok {
+		return "", false
+	}
+	if sel, isSel := c.Fun.(*ast.SelectorExpr); isSel && acpiC.MethodSeams != nil {
+		if id, isId := sel.X.(*ast.Ident); isId {
+			if _, isRecv := acpiRecvInfo(en.vars[id.Name]); isRecv {
+				if ev, known := acpiC.MethodSeams[sel.Sel.Name]; known {
+					// drv.M(args) for a method that is not translated: an event
+					var args []string
+					for _, a := range c.Args {
+						if aid, isA := a.(*ast.Ident); isA && en.vars[aid.Name].width == -31 {
+							continue
+						}
+						as, at := tr.expr(a, en)
+						if at.width <= 0 {
+							fail("%s: unsupported argument of %s", tr.fn.Name, sel.Sel.Name)
+						}
+						args = append(args, "(GNum "+as+")")
+					}
+					pre := tr.pre
+					tr.pre = nil
+					tr.hoistedCall = false
+					return tr.wrapPre(pre, "let "+v(tr.ptrRecv)+" := "+tr.event(ev, args)+" in\n  "+rest(en)), true
+				}
+			}
+		}
+	}
+	if acpiC.Printf == nil {
 		return "", false
 	}
 	name, ok := acpiC.Printf[exprText(c.Fun)]
@@ -1145,4 +1225,79 @@ func acpiHasLoad(e ast.Expr, en *env, tr *translator) bool {
 		return !found
 	})
 	return found
+}
+
+// acpiCtor: config "ctor": {"probeForACPI": {"struct": "acpiDriver", "fields": ["rsdtAddr", "useXSDT"], "types": ["uintptr", "bool"]}}
+// a function whose single (interface-typed) result is either nil or &Struct{field: e, ..} is rewritten on the syntax tree to
+// return (nonNil bool, fields..): `return nil` -> `return false, <zero values>`, `return &Struct{f1: a, f2: b}` -> `return true, a, b`
+// (a field that the literal leaves out is its zero value).
+func acpiCtor(spec fnSpec, decl *ast.FuncDecl) {
+	c, ok := acpiC.Ctor[spec.Name]
+	if !ok || spec.Recv != "" {
+		return
+	}
+	if decl.Type.Results == nil || len(decl.Type.Results.List) != 1 || len(decl.Type.Results.List[0].Names) > 1 || len(c.Fields) != len(c.Types) {
+		fail("%s: ctor rewrite needs a single unnamed result", spec.Name)
+	}
+	zero := func(ty string) ast.Expr {
+		if ty == "bool" {
+			return ast.NewIdent("false")
+		}
+		return &ast.BasicLit{Kind: token.INT, Value: "0"}
+	}
+	res := []*ast.Field{{Type: ast.NewIdent("bool")}}
+	for _, ty := range c.Types {
+		res = append(res, &ast.Field{Type: ast.NewIdent(ty)})
+	}
+	decl.Type = &ast.FuncType{Params: decl.Type.Params, Results: &ast.FieldList{List: res}}
+	ast.Inspect(decl.Body, func(n ast.Node) bool {
+		if _, isLit := n.(*ast.FuncLit); isLit {
+			return false
+		}
+		r, isRet := n.(*ast.ReturnStmt)
+		if !isRet {
+			return true
+		}
+		if len(r.Results) != 1 {
+			fail("%s: ctor rewrite: return with %d values", spec.Name, len(r.Results))
+		}
+		if id, isId := r.Results[0].(*ast.Ident); isId && id.Name == "nil" {
+			out := []ast.Expr{ast.NewIdent("false")}
+			for _, ty := range c.Types {
+				out = append(out, zero(ty))
+			}
+			r.Results = out
+			return true
+		}
+		u, isU := r.Results[0].(*ast.UnaryExpr)
+		if !isU || u.Op != token.AND {
+			fail("%s: ctor rewrite: a result that is neither nil nor &%s{..}", spec.Name, c.Struct)
+		}
+		lit, isL := u.X.(*ast.CompositeLit)
+		if !isL || exprText(lit.Type) != c.Struct {
+			fail("%s: ctor rewrite: a result that is neither nil nor &%s{..}", spec.Name, c.Struct)
+		}
+		vals := map[string]ast.Expr{}
+		for _, e := range lit.Elts {
+			kv, isKV := e.(*ast.KeyValueExpr)
+			if !isKV {
+				fail("%s: ctor rewrite: unkeyed struct literal", spec.Name)
+			}
+			vals[exprText(kv.Key)] = kv.Value
+		}
+		out := []ast.Expr{ast.NewIdent("true")}
+		for i, f := range c.Fields {
+			if e, given := vals[f]; given {
+				out = append(out, e)
+				delete(vals, f)
+			} else {
+				out = append(out, zero(c.Types[i]))
+			}
+		}
+		if len(vals) > 0 {
+			fail("%s: ctor rewrite: the literal sets a field that is not listed in the config", spec.Name)
+		}
+		r.Results = out
+		return true
+	})
 }
